@@ -10,9 +10,7 @@ LLRB, `.` for nil — the format of the hook `symboltable.VerifDump`.
 namespace AlgoVerif.C01.Driver
 open AlgoVerif AlgoVerif.C01
 
-def cmpAsc (a b : Int) : Int := if a < b then -1 else if a > b then 1 else 0
-def cmpDesc (a b : Int) : Int := if a > b then -1 else if a < b then 1 else 0
-def eqI (a b : Int) : Bool := a == b
+def eqI (a b : Int) : Bool := eqInt a b
 
 def dumpTree (kind : Kind) : Tree Int Int → String
   | .nil => "."
